@@ -21,14 +21,27 @@ import (
 // ---------------------------------------------------------------- spec
 
 type C13Op struct {
-	K string `json:"k"`           // newrow | rowadd | addrow | append | items | sep | headers | reg
+	K string `json:"k"`           // newrow | rowadd | addrow | append | items | sep | headers | reg | hcol
 	R int    `json:"r,omitempty"` // row id (rowadd, addrow; reg on row / cell)
-	N int    `json:"n,omitempty"` // number of items (items, headers); column number (reg on column); cell column (reg on cell)
+	N int    `json:"n,omitempty"` // number of items (items, headers); column number (reg on column, hcol); cell column (reg on cell)
 	// reg only
 	Owner  string `json:"owner,omitempty"`  // table | column | row | cell
 	Time   string `json:"time,omitempty"`   // add | pre | render | post
 	Target string `json:"target,omitempty"` // itself | cell | row
 	CB     int    `json:"cb,omitempty"`
+	// What kind of callback object: "" = pointer to a recorder carrying its id
+	// (all such objects differ); "twin" = pointer to a recorder with no state of
+	// its own (every two twins are distinct objects with equal contents, its id
+	// is found by address); "val" = a recorder struct passed by value (two
+	// registrations of one id are equal values).  A registration naming an id
+	// that was registered before passes the very same object again.
+	Kind string `json:"kind,omitempty"`
+	// the callback returns an error from every invocation (the invocation is
+	// still logged and the property still set: the trace does not depend on it)
+	Fail bool `json:"fail,omitempty"`
+	// reg on a column only: 1+index of the earlier hcol operation whose handle
+	// (t.Column(n) taken back then) is passed as the owner; 0 = t.Column(n) now
+	H int `json:"h,omitempty"`
 }
 
 type C13Spec struct {
@@ -55,6 +68,8 @@ func (o C13Op) String() string {
 		return fmt.Sprintf("%s(%d)", o.K, o.R)
 	case "items", "headers":
 		return fmt.Sprintf("%s(%d)", o.K, o.N)
+	case "hcol":
+		return fmt.Sprintf("h:=column%d", o.N)
 	case "reg":
 		ow := o.Owner
 		switch o.Owner {
@@ -65,7 +80,17 @@ func (o C13Op) String() string {
 		case "cell":
 			ow = fmt.Sprintf("cell%d.%d", o.R, o.N)
 		}
-		return fmt.Sprintf("reg#%d(%s,%s,%s)", o.CB, ow, o.Time, o.Target)
+		if o.H > 0 {
+			ow += fmt.Sprintf("@h%d", o.H-1)
+		}
+		extra := ""
+		if o.Kind != "" {
+			extra += "," + o.Kind
+		}
+		if o.Fail {
+			extra += ",fails"
+		}
+		return fmt.Sprintf("reg#%d(%s,%s,%s%s)", o.CB, ow, o.Time, o.Target, extra)
 	}
 	return o.K
 }
@@ -136,6 +161,7 @@ type c13Sim struct {
 	add        []c13Ev // expected add-time events
 	regerr     []int
 	lateAttach bool
+	handles    []int // column number of each hcol so far
 }
 
 func newC13Sim() *c13Sim { return &c13Sim{header: -1} }
@@ -180,7 +206,12 @@ func (s *c13Sim) wf(o C13Op) bool {
 	case "addrow":
 		return o.R >= 0 && o.R < len(s.rows) && !s.rows[o.R].attached
 	case "reg":
+		if o.H != 0 && (o.Owner != "column" || o.H < 0 || o.H > len(s.handles) || s.handles[o.H-1] != o.N) {
+			return false
+		}
 		return s.ownerExists(o)
+	case "hcol":
+		return o.N >= 0 && o.N <= s.ncols
 	case "items", "headers":
 		return o.N >= 0
 	}
@@ -300,6 +331,8 @@ func (s *c13Sim) step(o C13Op) {
 		s.addCells(id, 1, o.N)
 		s.joinRow(id)
 		s.joinCells(id, 1, o.N)
+	case "hcol":
+		s.handles = append(s.handles, o.N)
 	case "reg":
 		if c13Accepts(o.Owner, o.Target) {
 			s.regs = append(s.regs, o)
@@ -373,23 +406,87 @@ type c13Env struct {
 	addLog  []c13Ev
 	rndLog  []c13Ev
 	copyCol bool // a callback received a *column that is none of the table's columns
+
+	handles []c13Handle                       // column handles taken by hcol operations
+	objs    map[int]tabular.PropertyCallback // callback object of each id
+	twins   map[*c13Twin]c13TwinInfo
+}
+
+type c13Handle struct {
+	n int
+	h tabular.PropertyOwner // the *column t.Column(n) returned back then
+}
+
+// invoked: what every recording callback does
+func (e *c13Env) invoked(id int, fail bool, o tabular.PropertyOwner) error {
+	x := e.identify(o)
+	ev := c13Ev{id, x}
+	if e.render {
+		e.rndLog = append(e.rndLog, ev)
+	} else {
+		e.addLog = append(e.addLog, ev)
+	}
+	o.SetProperty(c13Key(id), id)
+	if fail {
+		return fmt.Errorf("recording callback #%d fails", id)
+	}
+	return nil
 }
 
 type c13Recorder struct {
-	id  int
-	env *c13Env
+	id   int
+	fail bool
+	env  *c13Env
 }
 
 func (c *c13Recorder) UpdateProperties(o tabular.PropertyOwner) error {
-	x := c.env.identify(o)
-	ev := c13Ev{c.id, x}
-	if c.env.render {
-		c.env.rndLog = append(c.env.rndLog, ev)
-	} else {
-		c.env.addLog = append(c.env.addLog, ev)
+	return c.env.invoked(c.id, c.fail, o)
+}
+
+// c13Twin: all twins of a run have equal contents (== on the pointees and
+// reflect.DeepEqual hold between any two) and yet are different callbacks
+type c13Twin struct{ env *c13Env }
+
+type c13TwinInfo struct {
+	id   int
+	fail bool
+}
+
+func (c *c13Twin) UpdateProperties(o tabular.PropertyOwner) error {
+	in := c.env.twins[c]
+	return c.env.invoked(in.id, in.fail, o)
+}
+
+// c13Val: a callback that is a plain value
+type c13Val struct {
+	id   int
+	fail bool
+	env  *c13Env
+}
+
+func (c c13Val) UpdateProperties(o tabular.PropertyOwner) error {
+	return c.env.invoked(c.id, c.fail, o)
+}
+
+// callback returns the object for a registration: the same object again when
+// the id was registered before
+func (e *c13Env) callback(o C13Op) tabular.PropertyCallback {
+	if cb, ok := e.objs[o.CB]; ok {
+		return cb
 	}
-	o.SetProperty(c13Key(c.id), c.id)
-	return nil
+	var cb tabular.PropertyCallback
+	switch o.Kind {
+	case "twin":
+		tw := &c13Twin{e}
+		e.twins[tw] = c13TwinInfo{o.CB, o.Fail}
+		cb = tw
+	case "val":
+		cb = c13Val{o.CB, o.Fail, e}
+	default:
+		cb = &c13Recorder{o.CB, o.Fail, e}
+	}
+	e.objs[o.CB] = cb
+	return cb
 }
 
 // c13Capture only learns the header row's pointer (there is no accessor for
@@ -415,7 +512,19 @@ func (e *c13Env) identify(o tabular.PropertyOwner) c13Tgt {
 	}
 	for n := 0; n <= e.t.NColumns(); n++ {
 		if c := e.t.Column(n); c != nil && o == tabular.PropertyOwner(c) {
+			// the column as the table has it now must also still be the one
+			// every handle taken earlier denotes
+			for _, h := range e.handles {
+				if h.n == n && h.h != o {
+					return c13Tgt{K: "unknown", Note: fmt.Sprintf("column %d as the table has it now, which is not the object a handle taken earlier denotes", n)}
+				}
+			}
 			return c13Tgt{K: "col", A: n}
+		}
+	}
+	for _, h := range e.handles {
+		if h.h == o {
+			return c13Tgt{K: "unknown", Note: fmt.Sprintf("the object of a handle to column %d taken earlier, no longer the table's column", h.n)}
 		}
 	}
 	tn := reflect.TypeOf(o).String()
@@ -554,7 +663,7 @@ type c13Obs struct {
 }
 
 func c13Exec(sp C13Spec) (ob c13Obs) {
-	env := &c13Env{t: tabular.New(), hdrID: -1}
+	env := &c13Env{t: tabular.New(), hdrID: -1, objs: map[int]tabular.PropertyCallback{}, twins: map[*c13Twin]c13TwinInfo{}}
 	ob.Kind = "ok"
 	defer func() {
 		if r := recover(); r != nil {
@@ -627,6 +736,12 @@ func c13Exec(sp C13Spec) (ob c13Obs) {
 				items[i] = "h"
 			}
 			t.AddHeaders(items...)
+		case "hcol":
+			if c := t.Column(o.N); c != nil {
+				env.handles = append(env.handles, c13Handle{o.N, c})
+			} else {
+				env.handles = append(env.handles, c13Handle{o.N, nil})
+			}
 		case "reg":
 			cids = append(cids, o.CB)
 			var owner tabular.PropertyOwner
@@ -634,7 +749,9 @@ func c13Exec(sp C13Spec) (ob c13Obs) {
 			case "table":
 				owner = t
 			case "column":
-				if c := t.Column(o.N); c != nil {
+				if o.H > 0 {
+					owner = env.handles[o.H-1].h
+				} else if c := t.Column(o.N); c != nil {
 					owner = c
 				}
 			case "row":
@@ -651,7 +768,7 @@ func c13Exec(sp C13Spec) (ob c13Obs) {
 				continue
 			}
 			var err error
-			rec := &c13Recorder{o.CB, env}
+			rec := env.callback(o)
 			tg := tabular.CB_ON_ITSELF
 			switch o.Target {
 			case "cell":
@@ -694,6 +811,15 @@ func c13Exec(sp C13Spec) (ob c13Obs) {
 
 	// liveness: read every callback's property back, through the table
 	sort.Ints(cids)
+	{
+		var u []int
+		for i, id := range cids {
+			if i == 0 || id != cids[i-1] {
+				u = append(u, id)
+			}
+		}
+		cids = u
+	}
 	has := func(o tabular.PropertyOwner, id int) bool { return o.GetProperty(c13Key(id)) != nil }
 	for _, id := range cids {
 		if has(t, id) {
@@ -701,7 +827,16 @@ func c13Exec(sp C13Spec) (ob c13Obs) {
 		}
 		for n := 0; n <= t.NColumns(); n++ {
 			if c := t.Column(n); c != nil && has(c, id) {
-				ob.props = append(ob.props, c13Ev{id, c13Tgt{K: "col", A: n}})
+				// ... and through every handle to that column taken earlier
+				live := true
+				for _, h := range env.handles {
+					if h.n == n && (h.h == nil || !has(h.h, id)) {
+						live = false
+					}
+				}
+				if live {
+					ob.props = append(ob.props, c13Ev{id, c13Tgt{K: "col", A: n}})
+				}
 			}
 		}
 		for rid := range env.rows {
@@ -752,10 +887,45 @@ func c13Sig(sp C13Spec, ob *c13Obs, sim *c13Sim, expRender []c13Ev, copyCol bool
 	if copyCol {
 		return "column-itself-callback-receives-a-copy"
 	}
+	hasFail, hasHandle := false, false
+	for _, o := range sp.Ops {
+		if o.K == "hcol" {
+			hasHandle = true
+		}
+		if o.K == "reg" && o.Fail {
+			hasFail = true
+		}
+	}
+	for _, e := range append(append([]c13Ev{}, ob.add...), ob.rnd...) {
+		if e.X.K == "unknown" && strings.Contains(e.X.Note, "handle") {
+			return "column-handle-taken-earlier-is-not-the-live-column"
+		}
+	}
+	// registrations that share their slot with an equal callback (equal contents, or the same object)
+	slotOf := func(r C13Op) string {
+		return fmt.Sprint(r.Owner, "/", r.R, "/", r.N, "/", c13Norm(r.Owner, r.Target), "/", r.Time)
+	}
+	equalInSlot := map[int]bool{}
+	for i, a := range sim.regs {
+		for j, b := range sim.regs {
+			if i != j && slotOf(a) == slotOf(b) && (a.CB == b.CB || (a.Kind == "twin" && b.Kind == "twin")) {
+				equalInSlot[a.CB] = true
+			}
+		}
+	}
 	classify := func(e c13Ev, what string) string {
 		r, ok := regOf[e.CB]
 		if !ok {
 			return what + ":unregistered-callback"
+		}
+		if r.Owner == "column" && (r.H > 0 || hasHandle) {
+			return "column-handle-taken-earlier-is-not-the-live-column"
+		}
+		if equalInSlot[e.CB] {
+			return what + "-invocation-of-a-callback-equal-to-another-in-its-slot"
+		}
+		if hasFail {
+			return what + "-invocation-in-a-history-with-a-callback-that-returns-an-error"
 		}
 		if what == "missing" {
 			if r.Owner == "table" && r.Time == "post" && c13Norm(r.Owner, r.Target) == "cell" {
@@ -807,6 +977,9 @@ func c13Sig(sp C13Spec, ob *c13Obs, sim *c13Sim, expRender []c13Ev, copyCol bool
 	}
 	for _, e := range append(append([]c13Ev{}, sim.add...), expRender...) {
 		if !pm[e.key()] {
+			if e.X.K == "col" && hasHandle {
+				return "column-handle-taken-earlier-is-not-the-live-column"
+			}
 			return "property-set-by-callback-not-visible:" + e.X.K
 		}
 	}
@@ -822,6 +995,7 @@ func c13Snippet(sp C13Spec) string {
 	var sb strings.Builder
 	sb.WriteString("t := tabular.New(); ")
 	id := 0
+	hcount := 0
 	for _, o := range sp.Ops {
 		switch o.K {
 		case "newrow":
@@ -838,19 +1012,38 @@ func c13Snippet(sp C13Spec) string {
 			fmt.Fprintf(&sb, "t.AddSeparator() /*r%d*/; ", id)
 		case "headers":
 			fmt.Fprintf(&sb, "t.AddHeaders(%d items) /*r%d*/; ", o.N, id)
+		case "hcol":
+			fmt.Fprintf(&sb, "h%d := t.Column(%d); ", hcount, o.N)
+			hcount++
 		case "reg":
 			ow := "t"
 			switch o.Owner {
 			case "column":
 				ow = fmt.Sprintf("t.Column(%d)", o.N)
+				if o.H > 0 {
+					ow = fmt.Sprintf("h%d", o.H-1)
+				}
 			case "row":
 				ow = fmt.Sprintf("r%d", o.R)
 			case "cell":
 				ow = fmt.Sprintf("&r%d.Cells()[%d]", o.R, o.N-1)
 			}
-			fmt.Fprintf(&sb, "t.RegisterPropertyCallback(%s, %s, %s, rec(%d)); ", ow,
+			rec := fmt.Sprintf("rec(%d)", o.CB)
+			switch {
+			case o.Kind == "twin" && o.Fail:
+				rec = fmt.Sprintf("failingTwin(%d)", o.CB)
+			case o.Kind == "twin":
+				rec = fmt.Sprintf("twin(%d)", o.CB)
+			case o.Kind == "val" && o.Fail:
+				rec = fmt.Sprintf("failingValueRec(%d)", o.CB)
+			case o.Kind == "val":
+				rec = fmt.Sprintf("valueRec(%d)", o.CB)
+			case o.Fail:
+				rec = fmt.Sprintf("failingRec(%d)", o.CB)
+			}
+			fmt.Fprintf(&sb, "t.RegisterPropertyCallback(%s, %s, %s, %s); ", ow,
 				map[string]string{"add": "CB_AT_ADD", "pre": "CB_AT_RENDER_PRECELL", "render": "CB_AT_RENDER", "post": "CB_AT_RENDER_POSTCELL"}[o.Time],
-				map[string]string{"itself": "CB_ON_ITSELF", "cell": "CB_ON_CELL", "row": "CB_ON_ROW"}[o.Target], o.CB)
+				map[string]string{"itself": "CB_ON_ITSELF", "cell": "CB_ON_CELL", "row": "CB_ON_ROW"}[o.Target], rec)
 		}
 		if o.allocates() {
 			id++
@@ -860,7 +1053,7 @@ func c13Snippet(sp C13Spec) string {
 	if sp.Via == "csv" {
 		call = "csv.Render(t)"
 	}
-	fmt.Fprintf(&sb, "%d x %s  // rec(i) logs (i, object received) and sets property i on it", sp.Passes, call)
+	fmt.Fprintf(&sb, "%d x %s  // rec(i) logs (i, object received) and sets property i on it; the same i twice = the same object twice; twins are distinct objects with equal contents; failing ones also return an error", sp.Passes, call)
 	return sb.String()
 }
 
@@ -918,10 +1111,12 @@ func c13Run(spec json.RawMessage) CaseOut {
 	if err := json.Unmarshal(spec, &sp); err != nil {
 		panic(err)
 	}
-	ops := make([]string, len(sp.Ops))
+	var ops []string
 	names := make([]string, len(sp.Ops))
 	for i, o := range sp.Ops {
-		ops[i] = o.Coq()
+		if o.K != "hcol" { // a handle is a column number: taking one is no operation of the history
+			ops = append(ops, o.Coq())
+		}
 		names[i] = o.String()
 	}
 	input := cqPair(cqList(ops), cqNat(sp.Passes))
@@ -979,8 +1174,46 @@ func c13Run(spec json.RawMessage) CaseOut {
 	}
 
 	// tags: the input distribution
+	ncolsTag := fmt.Sprintf("ncols=%d", sim.ncols)
+	if sim.ncols >= 10 {
+		ncolsTag = "ncols>=10"
+	}
 	tags := []string{fmt.Sprintf("passes=%d", sp.Passes), "via=" + map[string]string{"": "direct", "csv": "csv"}[sp.Via],
-		fmt.Sprintf("ncols=%d", sim.ncols), fmt.Sprintf("rows=%d", len(sim.order))}
+		ncolsTag, fmt.Sprintf("rows=%d", len(sim.order))}
+	{
+		seenCB := map[int]bool{}
+		slots := map[string][]C13Op{}
+		for _, o := range sp.Ops {
+			if o.K == "hcol" {
+				tags = append(tags, "column-handle-taken")
+			}
+			if o.K != "reg" {
+				continue
+			}
+			if o.Kind != "" {
+				tags = append(tags, "callback-kind="+o.Kind)
+			}
+			if o.Fail {
+				tags = append(tags, "callback-returns-error")
+			}
+			if o.H > 0 {
+				tags = append(tags, "registered-through-earlier-handle")
+			}
+			if seenCB[o.CB] {
+				tags = append(tags, "same-callback-object-registered-twice")
+			}
+			seenCB[o.CB] = true
+			k := fmt.Sprint(o.Owner, "/", o.R, "/", o.N, "/", c13Norm(o.Owner, o.Target), "/", o.Time)
+			for _, q := range slots[k] {
+				if q.CB == o.CB || (q.Kind == "twin" && o.Kind == "twin") {
+					tags = append(tags, "equal-callbacks-in-one-slot")
+				} else {
+					tags = append(tags, "two-callbacks-in-one-slot")
+				}
+			}
+			slots[k] = append(slots[k], o)
+		}
+	}
 	if sim.header >= 0 {
 		tags = append(tags, "header")
 	}
@@ -1023,7 +1256,7 @@ func c13Run(spec json.RawMessage) CaseOut {
 		Desc:       ob,
 		Size:       size,
 		Tags:       tags,
-		Key:        input + "|" + sp.Via,
+		Key:        string(spec),
 		Nontrivial: len(sim.add)+len(expRender) > 0 || nreg > len(sim.regs),
 	}
 }
@@ -1320,10 +1553,27 @@ func c13DropOp(ops []C13Op, i int) []C13Op {
 			}
 		}
 	}
+	hidx := -1 // index of the dropped handle
+	if ops[i].K == "hcol" {
+		hidx = 0
+		for _, o := range ops[:i] {
+			if o.K == "hcol" {
+				hidx++
+			}
+		}
+	}
 	var out []C13Op
 	for j, o := range ops {
 		if j == i {
 			continue
+		}
+		if hidx >= 0 && o.K == "reg" && o.H > 0 {
+			if o.H-1 == hidx {
+				continue
+			}
+			if o.H-1 > hidx {
+				o.H--
+			}
 		}
 		if id >= 0 {
 			names := o.K == "rowadd" || o.K == "addrow" || (o.K == "reg" && (o.Owner == "row" || o.Owner == "cell"))
